@@ -43,7 +43,8 @@ class C05(WigBedProp):
             nb += [(256 * 256 + 1, 256), (65, 2), (1025, 2)]
             return nb
         # wide nodes as well: a node of more than 32 entries is where a reader would switch from scanning to bisecting
-        return [(n, b) for b in range(2, 7) for n in range(1, 41)] + [(n, b) for b in (33, 40, 64) for n in (b - 1, b + 1, 2 * b + 3, 150)]
+        return [(n, b) for b in range(2, 7) for n in range(1, 41)] + [(n, b) for b in (33, 40, 64) for n in (b - 1, b + 1, 2 * b + 3, 150)] + \
+            [(2100, 2048), (3300, 3000)]          # one leaf node of ≥ 2048 entries: 2048 · 32 bytes no longer fits 16 bits
 
     def cases(self, rng, tier):
         out = []
@@ -56,7 +57,7 @@ class C05(WigBedProp):
             # the later queries of the case (a second code path over the same tree)
             o = {"compress": 0, "ips": 1, "bs": b, "zooms": "4" if n <= 400 else "none", "pass": 1 + k % 2, "inmem": k % 2,
                  "rt": "mt", "threads": 2, "chan": 100, "src": "iter", "sort": "all", "reader": "cached" if k % 3 == 0 or (32 < b < 200) else "plain"}
-            tags = {f"fanout_{b}" if b < 20 else ("fanout_33_to_64" if b < 200 else "fanout_256ish"), "reader_" + o["reader"]}
+            tags = {f"fanout_{b}" if b < 20 else ("fanout_33_to_64" if b < 200 else ("fanout_256ish" if b < 1000 else "fanout_2048_or_more")), "reader_" + o["reader"]}
             depth, m = 1, n
             while m > b:
                 m = (m + b - 1) // b
